@@ -89,7 +89,7 @@ def variant(rng, U, P, W, label):
     W2 = None if W2 is None else list(W2)
     if label.startswith("perturbed"):
         which = rng.choice(["first", "last", "middle", "weight"]) if label != "perturbed-raised" else "last"
-        eps = F(1, rng.choice([1000, 100, 3]))
+        eps = F(1, rng.choice([1000, 100, 3, 10**6, 10**7]))      # far above the 1e-9 comparison tolerance, in absolute terms
         if which == "weight" and W2 is not None and len(W2) > 2:
             W2[rng.randrange(1, len(W2) - 1)] += eps     # an interior weight changes the function (an end weight alone may not)
         elif which == "weight" and W2 is None:
